@@ -70,6 +70,10 @@ pub struct PlanSpec {
     /// TMPDIR of the tool (None: unset, i.e. the shared /tmp - never used by the harness: a directory shared between
     /// concurrently simulated runs is shared mutable state the simulator does not own)
     pub tmpdir: Option<PathBuf>,
+    /// what the tool's clock starts from (seconds since the epoch) and what getpid() answers; 0 = the shim's defaults.
+    /// Owning the clock includes varying it: output that embeds the time or the pid must differ between environments.
+    pub clock_base: u64,
+    pub pid: u64,
 }
 
 #[derive(Clone, Debug, Default)]
@@ -119,6 +123,12 @@ pub fn write_plan(plan_path: &Path, trace_path: &Path, p: &PlanSpec) -> std::io:
     s.push_str(&format!("dir {}\n", p.dir.display()));
     s.push_str(&format!("entropy {:x} {:x}\n", p.entropy.0, p.entropy.1));
     s.push_str(&format!("dirperm {}\n", p.dirperm));
+    if p.clock_base != 0 {
+        s.push_str(&format!("clock {}\n", p.clock_base));
+    }
+    if p.pid != 0 {
+        s.push_str(&format!("pid {}\n", p.pid));
+    }
     for n in &p.dirorder {
         s.push_str(&format!("dirorder {n}\n"));
     }
